@@ -7,6 +7,7 @@ through ANY two consecutive stack vertices.
 -/
 import FairModel.Lemmas.Prelude
 import FairModel.Model.Threshold
+import FairModel.Lemmas.ThresholdSrc
 
 namespace Threshold
 
@@ -29,8 +30,7 @@ theorem LexLe.trans {a b c : Pt} (h1 : LexLe a b) (h2 : LexLe b c) : LexLe a c :
 theorem LexLe.x_le {a b : Pt} (h : LexLe a b) : a.x ≤ b.x := by
   rcases h with h | ⟨h, _⟩ <;> linarith
 
-theorem lexLt_iff (a b : Pt) : lexLt a b = true ↔ (a.x < b.x ∨ (a.x = b.x ∧ a.y < b.y)) := by
-  simp [lexLt]
+theorem lexLt_iff (a b : Pt) : lexLt a b = true ↔ (a.x < b.x ∨ (a.x = b.x ∧ a.y < b.y)) := src_lexLt a b
 
 theorem LexLe.of_lexLt {a b : Pt} (h : lexLt a b = true) : LexLe a b := by
   rw [lexLt_iff] at h
@@ -207,12 +207,12 @@ theorem cross_pop_mid {r0 r1 r2 q : Pt} (h12 : LexLe r1 r2)
 
 /-- the `dropTest` of the code in terms of `cross` -/
 theorem dropTest_iff (r0 r1 r2 : Pt) : dropTest r0 r1 r2 = true ↔ cross r0 r2 r1 ≤ 0 := by
-  unfold dropTest cross
+  rw [src_hullDrop]; unfold cross
   simp only [decide_eq_true_eq]
   constructor <;> intro h <;> linarith
 
 theorem not_dropTest_iff (r0 r1 r2 : Pt) : ¬ dropTest r0 r1 r2 = true ↔ cross r0 r1 r2 < 0 := by
-  unfold dropTest cross
+  rw [src_hullDrop]; unfold cross
   simp only [decide_eq_true_eq, not_le]
   constructor <;> intro h <;> linarith
 
